@@ -45,8 +45,44 @@ static uintptr_t s_rel[MAXPAGES];
 static size_t s_rel_n;
 static long s_double_release;
 
+/* BACKEND BALANCE.  While the recording parent is inside its backend (s_in_backend), every block the backend takes
+ * from / gives back to the C library is counted: after each parent call the backend must hold exactly one C-library
+ * block per parent block it has handed out (a parent realloc that forgets to free the old block shows up here). */
+void *__real_malloc(size_t n);
+void *__real_calloc(size_t a, size_t b);
+void *__real_realloc(void *p, size_t n);
+static __thread int s_in_backend;
+static long s_backend_live;
+
+void *__wrap_malloc(size_t n) {
+    void *p = __real_malloc(n);
+    if (s_in_backend && p) {
+        __atomic_fetch_add(&s_backend_live, 1, __ATOMIC_SEQ_CST);
+    }
+    return p;
+}
+
+void *__wrap_calloc(size_t a, size_t b) {
+    void *p = __real_calloc(a, b);
+    if (s_in_backend && p) {
+        __atomic_fetch_add(&s_backend_live, 1, __ATOMIC_SEQ_CST);
+    }
+    return p;
+}
+
+void *__wrap_realloc(void *q, size_t n) {
+    void *p = __real_realloc(q, n);
+    if (s_in_backend && p && !q) {
+        __atomic_fetch_add(&s_backend_live, 1, __ATOMIC_SEQ_CST);
+    }
+    return p;
+}
+
 int __wrap_posix_memalign(void **out, size_t align, size_t size) {
     int rc = __real_posix_memalign(out, align, size);
+    if (s_in_backend && rc == 0) {
+        __atomic_fetch_add(&s_backend_live, 1, __ATOMIC_SEQ_CST);
+    }
     if (rc == 0 && align == size && align >= 1024) {
         HLOCK(&s_pg_lock);
         for (size_t i = 0; i < s_rel_n; ++i) {
@@ -67,6 +103,9 @@ int __wrap_posix_memalign(void **out, size_t align, size_t size) {
 }
 
 void __wrap_free(void *p) {
+    if (s_in_backend && p) {
+        __atomic_fetch_sub(&s_backend_live, 1, __ATOMIC_SEQ_CST);
+    }
     if (p && (((uintptr_t)p) & 1023) == 0 && (s_pg_n || s_rel_n)) {
         bool found = false, twice = false;
         HLOCK(&s_pg_lock);
@@ -214,10 +253,13 @@ static bool s_par_has(const void *p) {
 static bool s_par_raw;
 static struct aws_allocator *s_backend;
 static size_t s_par_base;
+static long s_backend_base;
 
 static void *s_par_acquire(struct aws_allocator *a, size_t size) {
     (void)a;
+    ++s_in_backend;
     void *p = s_par_raw ? malloc(size) : s_backend->mem_acquire(s_backend, size);
+    --s_in_backend;
     s_par_add(p);
     return p;
 }
@@ -226,17 +268,21 @@ static void s_par_release(struct aws_allocator *a, void *p) {
     (void)a;
     if (p) {
         s_par_del(p);
+        ++s_in_backend;
         if (s_par_raw) {
             free(p);
         } else {
             s_backend->mem_release(s_backend, p);
         }
+        --s_in_backend;
     }
 }
 
 static void *s_par_realloc(struct aws_allocator *a, void *p, size_t oldsize, size_t newsize) {
     (void)a;
+    ++s_in_backend;
     void *n = s_par_raw ? realloc(p, newsize) : s_backend->mem_realloc(s_backend, p, oldsize, newsize);
+    --s_in_backend;
     if (n) {
         if (p) {
             s_par_del(p);
@@ -248,7 +294,9 @@ static void *s_par_realloc(struct aws_allocator *a, void *p, size_t oldsize, siz
 
 static void *s_par_calloc(struct aws_allocator *a, size_t num, size_t size) {
     (void)a;
+    ++s_in_backend;
     void *p = s_par_raw ? calloc(num, size) : s_backend->mem_calloc(s_backend, num, size);
+    --s_in_backend;
     s_par_add(p);
     return p;
 }
@@ -402,6 +450,7 @@ static void s_new(bool mt, int parent_kind) {
     s_par_raw = parent_kind == 1;
     s_backend = parent_kind == 2 ? aws_default_allocator() : parent_kind == 3 ? aws_aligned_allocator() : hc_allocator();
     s_par_base = s_par_n;
+    s_backend_base = s_backend_live;
     struct aws_allocator *par = parent_kind == 4   ? &s_parent_norealloc
                                 : parent_kind == 5 ? &s_parent_nocalloc
                                 : parent_kind == 6 ? &s_parent_bare
@@ -739,8 +788,11 @@ struct sc_verdict {
     unsigned char ev_kind[4096];
 };
 
+static long s_sc_ops; /* bin operations performed by the workers of the current run */
+
 static void s_sc_release(struct sc_thread *th, size_t idx) {
     struct blk *b = &th->own[idx];
+    ++s_sc_ops;
     if (!s_intact(b)) {
         th->bad_pattern++;
     }
@@ -759,6 +811,7 @@ static void *s_sc_worker(void *arg) {
                 struct blk *b = &th->own[th->nown++];
                 b->size = s_sc.size;
                 b->k = (size_t)tid * 7919u + th->serial++;
+                ++s_sc_ops;
                 b->ptr = aws_mem_acquire(s_sba, b->size);
                 s_set_cls(b, b->size);
                 s_fill(b);
@@ -817,7 +870,14 @@ static void s_sc_run(const struct ds_config *cfg, struct sc_verdict *v) {
         }
     }
     ds_init(cfg);
+    s_sc_ops = 0;
     v->rc = ds_run(s_sc_main, NULL);
+    long n_locks = 0;
+    for (size_t i = 0; i < ds_event_count(); ++i) {
+        if (ds_event_at(i)->kind == DS_LOCK) {
+            ++n_locks;
+        }
+    }
     v->diverged = ds_diverged();
     const int *lst = NULL;
     v->nsched = ds_schedule(&lst);
@@ -866,7 +926,11 @@ static void s_sc_run(const struct ds_config *cfg, struct sc_verdict *v) {
     s_sba = NULL;
     long pages_left = (long)s_pg_n, parent_left = (long)s_par_n - (long)s_par_base;
     int misuse = ds_misuse_count();
-    if (badp || !in) {
+    if (s_sc.size <= 512 && n_locks < s_sc_ops) {
+        /* synchronisation skeleton: every bin operation of a multi-threaded allocator runs under the bin mutex */
+        snprintf(v->what, sizeof(v->what), "multi-threaded allocator performed %ld bin operations but took a mutex only %ld times",
+                 s_sc_ops, n_locks);
+    } else if (badp || !in) {
         snprintf(v->what, sizeof(v->what), "fill pattern of a live block destroyed (%ld at release, intact=%d)", badp, in);
     } else if (!d || !ow || !a) {
         snprintf(v->what, sizeof(v->what), "live blocks at join: disjoint=%d owned=%d align=%d", d, ow, a);
@@ -997,6 +1061,110 @@ static void s_sc_explore(int bound, long maxruns, uint64_t seed) {
 }
 #endif /* SBA_SCHED */
 
+/* ------------------------------------------------------------------ the parents against their contract, directly
+ * (ASSUMPTIONS, "PARENT CONTRACT"): acquire / calloc return blocks disjoint from every live block, 16-byte aligned,
+ * calloc zeroed over num*size; realloc(p, old, new) returns a block of `new` bytes keeping min(old,new) bytes and
+ * disturbs no other block; everything released => the backend holds nothing.  Sizes around 4096 (the aligned
+ * allocator's class boundary) and 512. */
+static void s_parent_check(int kind, long steps, uint64_t seed) {
+    static const size_t sz[] = {1, 8, 16, 31, 32, 33, 511, 512, 513, 600, 1000, 4000, 4095, 4096, 4097, 5000, 8191, 8192, 8193};
+    struct aws_allocator *al;
+    s_par_raw = kind == 1;
+    s_backend = hc_allocator();
+    al = kind == 2 ? aws_default_allocator() : kind == 3 ? aws_aligned_allocator() : kind == 4 ? &s_parent_norealloc
+         : kind == 5 ? &s_parent_nocalloc : kind == 6 ? &s_parent_bare : &s_parent;
+    struct blk b[48];
+    size_t n = 0, serial = 0;
+    char what[256] = "";
+    uint64_t rng = seed * 0x9E3779B97F4A7C15ull + 99;
+    long base = s_backend_live;
+    size_t par_base = s_par_n;
+    for (long step = 0; step < steps && !what[0]; ++step) {
+        uint64_t r = s_next(&rng) % 100;
+        size_t want = sz[s_next(&rng) % (sizeof(sz) / sizeof(sz[0]))];
+        if (n < 48 && (r < 35 || n == 0)) {
+            struct blk *x = &b[n];
+            x->k = serial++;
+            x->cls = 0;
+            ++s_in_backend;
+            if (r < 12) {
+                size_t num = 1 + s_next(&rng) % 8, each = 1 + want / num;
+                x->size = num * each;
+                x->ptr = aws_mem_calloc(al, num, each);
+                --s_in_backend;
+                for (size_t i = 0; i < x->size; ++i) {
+                    if (x->ptr[i]) {
+                        snprintf(what, sizeof(what), "calloc(%zu,%zu): byte %zu is not zero", num, each, i);
+                        break;
+                    }
+                }
+            } else {
+                x->size = want;
+                x->ptr = aws_mem_acquire(al, want);
+                --s_in_backend;
+            }
+            if (((uintptr_t)x->ptr) % 16) {
+                snprintf(what, sizeof(what), "block of %zu bytes is not 16-byte aligned", x->size);
+            }
+            for (size_t i = 0; i < n && !what[0]; ++i) {
+                if (x->ptr < b[i].ptr + b[i].size && b[i].ptr < x->ptr + x->size) {
+                    snprintf(what, sizeof(what), "new block of %zu bytes overlaps a live block of %zu bytes", x->size, b[i].size);
+                }
+            }
+            if (!what[0]) {
+                s_fill(x);
+                ++n;
+            }
+        } else if (r < 70) {
+            struct blk *x = &b[s_next(&rng) % n];
+            size_t old = x->size, keep = old < want ? old : want;
+            void *p = x->ptr;
+            ++s_in_backend;
+            aws_mem_realloc(al, &p, old, want);
+            --s_in_backend;
+            x->ptr = p;
+            x->size = want;
+            for (size_t i = 0; i < keep; ++i) {
+                if (x->ptr[i] != s_pat(x->k, i)) {
+                    snprintf(what, sizeof(what), "realloc %zu -> %zu lost byte %zu of the first %zu", old, want, i, keep);
+                    break;
+                }
+            }
+            if (!what[0]) {
+                s_fill(x);
+            }
+        } else {
+            size_t i = (size_t)(s_next(&rng) % n);
+            ++s_in_backend;
+            aws_mem_release(al, b[i].ptr);
+            --s_in_backend;
+            b[i] = b[--n];
+        }
+        for (size_t i = 0; i < n && !what[0]; ++i) {
+            if (!s_intact(&b[i])) {
+                snprintf(what, sizeof(what), "step %ld: contents of a live block of %zu bytes were disturbed", step, b[i].size);
+            }
+        }
+    }
+    if (!what[0]) {
+        ++s_in_backend;
+        for (size_t i = 0; i < n; ++i) {
+            aws_mem_release(al, b[i].ptr);
+        }
+        --s_in_backend;
+        if (s_backend_live != base || s_par_n != par_base) {
+            snprintf(what, sizeof(what), "everything released but the parent still holds %ld C-library blocks (%ld recorded)",
+                     s_backend_live - base, (long)s_par_n - (long)par_base);
+        }
+    }
+    printf("P parent kind=%s ok=%d\n", s_parent_names[kind], what[0] ? 0 : 1);
+    if (what[0]) {
+        printf("P MONITOR parent %s: %s\n", s_parent_names[kind], what);
+        fflush(stdout);
+        _exit(0);
+    }
+}
+
 /* ------------------------------------------------------------------ interpreter */
 int main(void) {
     char *t[HC_MAX_TOKS];
@@ -1045,6 +1213,8 @@ int main(void) {
         } else if (!strcmp(t[0], "explore") && n == 4 && !s_sba && s_sc.nthreads && s_sc.declared == s_sc.nthreads) {
             s_sc_explore(atoi(t[1]), atol(t[2]), hc_parse_u64(t[3]));
 #endif
+        } else if (!strcmp(t[0], "parent") && n == 4 && !s_sba && s_parent_kind(t[1]) >= 0) {
+            s_parent_check(s_parent_kind(t[1]), atol(t[2]), hc_parse_u64(t[3]));
         } else if (!s_sba) {
             printf("bad-op\n");
         } else if (!strcmp(t[0], "acq") && n == 3) {
@@ -1124,7 +1294,8 @@ int main(void) {
         } else if (!strcmp(t[0], "reserved") && n == 1) {
             printf("W reserved=%zu\n", aws_small_block_allocator_bytes_reserved(s_sba));
         } else if (!strcmp(t[0], "pagesize") && n == 1) {
-            printf("P pagesize=%zu\n", aws_small_block_allocator_page_size(s_sba));
+            printf("P pagesize=%zu avail=%zu\n", aws_small_block_allocator_page_size(s_sba),
+                   aws_small_block_allocator_page_size_available(s_sba));
         } else if (!strcmp(t[0], "stress") && n == 4 && s_nblk == 0) {
             int nt = atoi(t[1]);
             if (nt < 1 || nt > 8) {
@@ -1142,7 +1313,8 @@ int main(void) {
             }
             aws_small_block_allocator_destroy(s_sba);
             s_sba = NULL;
-            printf("P destroyed pages_left=%zu parent_left=%ld\n", s_pg_n, (long)s_par_n - (long)s_par_base);
+            printf("P destroyed pages_left=%zu parent_left=%ld backend_left=%ld\n", s_pg_n, (long)s_par_n - (long)s_par_base,
+                   s_backend_live - s_backend_base);
         } else {
             printf("bad-op\n");
         }
